@@ -1054,7 +1054,7 @@ func (en *engine) emit(im *image) {
 	if en.job.Only != "" && en.job.Only != im.desc {
 		return
 	}
-	if en.job.Hist.Parts > 1 {
+	if en.job.Hist.Parts > 1 && en.job.Only == "" { // a replay names its image: the partition does not matter
 		en.imgIdx++
 		if int(en.imgIdx)%en.job.Hist.Parts != en.job.Hist.Part {
 			return
